@@ -18,6 +18,7 @@
 package parser
 
 import (
+	"bytes"
 	"encoding/json"
 
 	"github.com/golang/protobuf/ptypes/any"
@@ -166,7 +167,7 @@ func ConvertToIntree(protoLog *BranchUndoLog) *undo.BranchUndoLog {
 				}
 
 				for _, pbCol := range pbRow.Columns {
-					anyValue, err := convertAnyToInterface(pbCol.Value)
+					anyValue, err := convertAnyToColumnValue(pbCol.Value, types.JDBCType(pbCol.ColumnType))
 					if err != nil {
 						continue
 					}
@@ -198,7 +199,7 @@ func ConvertToIntree(protoLog *BranchUndoLog) *undo.BranchUndoLog {
 				}
 
 				for _, pbCol := range pbRow.Columns {
-					anyValue, err := convertAnyToInterface(pbCol.Value)
+					anyValue, err := convertAnyToColumnValue(pbCol.Value, types.JDBCType(pbCol.ColumnType))
 					if err != nil {
 						continue
 					}
@@ -235,6 +236,30 @@ func convertAnyToInterface(anyValue *any.Any) (interface{}, error) {
 		return value, uErr
 	}
 	return value, nil
+}
+
+// convertAnyToColumnValue reads the value of a column: the Any holds its JSON text, which does not say whether a
+// string is a text, the bytes of a binary value or a point in time, nor whether a number is a 64-bit integer; the
+// column type does (the same rules as for the json serializer).
+func convertAnyToColumnValue(anyValue *any.Any, columnType types.JDBCType) (interface{}, error) {
+	bytesValue := &wrappers.BytesValue{}
+	if err := anypb.UnmarshalTo(anyValue, bytesValue, proto.UnmarshalOptions{}); err != nil {
+		return nil, err
+	}
+	var value interface{}
+	decoder := json.NewDecoder(bytes.NewReader(bytesValue.Value))
+	decoder.UseNumber()
+	if err := decoder.Decode(&value); err != nil {
+		return nil, err
+	}
+	// a text stays the text it is (this serializer has never written texts in any other way)
+	if text, ok := value.(string); ok {
+		switch columnType {
+		case types.JDBCTypeChar, types.JDBCTypeVarchar, types.JDBCTypeLongVarchar:
+			return text, nil
+		}
+	}
+	return types.ColumnValueFromJSON(columnType, value)
 }
 
 func convertInterfaceToAny(v interface{}) (*any.Any, error) {
